@@ -108,7 +108,9 @@ def compute_orthonormal_basis(
     ej = torch.zeros_like(dgamma_t0)
     ej[strip_col] = 1.0
 
-    alpha = -torch.sign(dgamma_t0[strip_col]) * torch.norm(dgamma_t0)
+    # <!> `torch.sign(0) = 0` would give `alpha = 0`, i.e. a reflection that does NOT send `dgamma_t0` on `ej`
+    sign = torch.where(dgamma_t0[strip_col] < 0, -1.0, 1.0)
+    alpha = -sign * torch.norm(dgamma_t0)
     u_vector = dgamma_t0 - alpha * ej
     v_vector = u_vector / torch.norm(u_vector)
 
